@@ -4,6 +4,7 @@ CONSTANTS
   SepLens = 0
   WidthRule = "full"
   ExpandRule = "atleast1"
+  CsvCtx = "own"
 INIT TInit
 NEXT TNext
 POSTCONDITION TraceConsumed
